@@ -425,6 +425,39 @@ void volumeCase(Ctx& ctx)
 		}
 	});
 	if (o.cls != 'R') ctx.violation("C04/volume/open-fails", "lzh.vol", o.what);
+	// the same volume cut inside / at the start of / in the block header of its last member: the torn member is refused,
+	// and every intact LZH member is still extracted to the reference bytes afterwards (and again, in reverse order)
+	{
+		auto strictFull = ref::parseVolStrict(img.bytes);
+		std::size_t lastBlock = strictFull.entries.back().blockOffset;
+		for (std::size_t cut : { lastBlock, lastBlock + 3, lastBlock + 8, lastBlock + 8 + 2 }) {   // before, inside and just after the block header, and inside the 5 data bytes
+			std::vector<uint8_t> torn(img.bytes.begin(), img.bytes.begin() + cut);
+			std::string tpath = dir + "/torn.vol";
+			mc::writeFile(tpath, torn);
+			auto ot = mc::guarded([&] {
+				Archive::VolFile vol(tpath);
+				std::size_t last = ms.size() - 1;
+				for (int round = 0; round < 2; ++round) {
+					auto bad = mc::guarded([&] { vol.ExtractFile(last, dir + "/torn_out"); });
+					ctx.transition();
+					ctx.count("volume/torn-member-attempts");
+					if (bad.cls == 'R') ctx.violation("C04/volume/torn-member-extracted", ms[last].name + " cut at " + std::to_string(cut), "");
+					for (std::size_t k = 0; k < last; ++k) {
+						std::size_t i = round ? last - 1 - k : k;
+						if (over[i]) continue;
+						std::string out = dir + "/after" + std::to_string(i);
+						ctx.sub("volume cut at " + std::to_string(cut) + ": ExtractFile " + ms[i].name + " after the refused member");
+						auto e = mc::guarded([&] { vol.ExtractFile(i, out); });
+						ctx.transition();
+						if (e.cls != 'R') { ctx.violation("C04/volume/extract-after-refusal-throws", ms[i].name + " cut at " + std::to_string(cut), e.what); continue; }
+						if (mc::readFile(out) != plain[i]) ctx.violation("C04/volume/extracted-bytes-differ-after-refusal", ms[i].name, "");
+						ctx.count("volume/members-extracted-after-refusal");
+					}
+				}
+			});
+			if (ot.cls != 'R') ctx.count("volume/torn-volume-not-opened");
+		}
+	}
 	ctx.state();
 	ctx.sample("reference-encoded volume with 5 LZH members (one over capacity) and 1 stored member: ExtractFile must write exactly the reference decoder's bytes");
 	mc::removeTree(dir);
